@@ -25,7 +25,7 @@ NT_RULE = ('reactions with 1-4 reactants/products, coefficients 0.25-4, 0-2 TS s
            'per-species block; distinct = distinct canonical JSON')
 REQUIRED_ORACLES = ['H1', 'H2', 'H3', 'H4', 'H5', 'H6', 'H7', 'RT']
 REQUIRED_CLASSES = ['cls:Reaction', 'cls:ChemkinReaction', 'cls:SurfaceReaction', 'flavor:statmech',
-                    'flavor:mixed', 'flavor:empirical', 'ts:0', 'ts:1', 'ts:2', 'block', 'fractional']
+                    'flavor:mixed', 'flavor:empirical', 'ts:0', 'ts:1', 'ts:2', 'block', 'block:falsy_override', 'fractional']
 REQUIRED_PROBES = ['Reaction.get_state_quantity', 'Reaction.get_delta_quantity', '_get_specie_kwargs',
                    '_force_pass_arguments', '_get_states']
 ASSUMPTIONS = ['ChemkinReaction / SurfaceReaction are driven with empirical species only (they require a phase) '
@@ -115,6 +115,11 @@ def run_case(spec, ctx):
         m = dict(base, q=X)
         extra = {'include_ZPE': True} if X == 'EoRT' and (ctx.case_index or 0) % 2 else {}
         c2 = dict(cond, **extra)
+        if extra and (ctx.case_index or 0) % 4 == 1:
+            # a block that overrides a shared condition with a *falsy* value for one species
+            nm0 = spec['reactants'][0][0]
+            c2['%s_kwargs' % nm0] = dict(c2.get('%s_kwargs' % nm0, {}), include_ZPE=False)
+            ctx.cls('block:falsy_override')
         ref, mag = {}, {}
         try:
             for st, side in sides.items():
